@@ -11,6 +11,7 @@ import (
 	"hash"
 	"net/url"
 	"strings"
+	"sync"
 	"testing"
 	"time"
 
@@ -825,6 +826,91 @@ var _ = bytes.Equal
 // FuzzC06HMACValidate: coverage-guided search for a string that the HMAC
 // layer accepts although the reference does not (or vice versa) under a fixed
 // two-secret configuration; seeded with hostile constants and valid tokens.
+
+// TestC06_ConcurrentMinting: "never repeat" also holds when several goroutines mint at the same time through
+// different strategy instances (access / refresh tokens and codes, device and user codes, request URIs through the
+// PAR endpoint, which draws its random bytes without any strategy lock).
+func TestC06_ConcurrentMinting(t *testing.T) {
+	h.SetProperty("C06")
+	selfTest(t)
+	per := 20000
+	if Tier() == "thorough" {
+		per = 150000
+	}
+	w := h.NewWorld(h.Spec{RefreshScopes: []string{}})
+	cl := stdClient("A", false)
+	cl.Secret = w.HashSecret("sA")
+	w.AddClient(cl, "sA")
+	ctx := context.Background()
+	// every "own-strategy" goroutine has a strategy instance (and therefore a lock) of its own, like several providers
+	// in one process; "raw" draws random bytes directly, as the PAR handler does
+	kinds := []string{"access", "refresh", "code", "device", "own-strategy", "own-strategy", "own-strategy", "own-strategy", "raw", "raw", "request_uri"}
+	out := make([][]string, len(kinds))
+	var wg sync.WaitGroup
+	for g, kind := range kinds {
+		wg.Add(1)
+		go func(g int, kind string) {
+			defer wg.Done()
+			n := per
+			if kind == "request_uri" {
+				n = per / 20 // goes through the whole endpoint
+			}
+			own := compose.NewOAuth2HMACStrategy(w.Cfg)
+			for i := 0; i < n; i++ {
+				var v string
+				switch kind {
+				case "access":
+					v, _, _ = w.HMAC.GenerateAccessToken(ctx, nil)
+				case "refresh":
+					v, _, _ = w.HMAC.GenerateRefreshToken(ctx, nil)
+				case "code":
+					v, _, _ = w.HMAC.GenerateAuthorizeCode(ctx, nil)
+				case "device":
+					v, _, _ = w.DevStr.GenerateDeviceCode(ctx)
+				case "own-strategy":
+					v, _, _ = own.GenerateAccessToken(ctx, nil)
+				case "raw":
+					if b, err := fhmac.RandomBytes(32); err == nil {
+						v = base64.RawURLEncoding.EncodeToString(b)
+					}
+				case "request_uri":
+					v = w.PAR(url.Values{"client_id": {"A"}, "response_type": {"code"}, "state": {"state-0123456789"}, "redirect_uri": {redirectURI}}, w.BasicFor("A")).RequestURI
+				}
+				if v != "" {
+					out[g] = append(out[g], v)
+				}
+			}
+		}(g, kind)
+	}
+	wg.Wait()
+	seen := map[string]string{}
+	total := 0
+	for g, l := range out {
+		for _, v := range l {
+			total++
+			// compare the random part: two values with equal random bytes have equal signatures and storage keys
+			b := v
+			if strings.HasPrefix(v, "ory_") && len(v) > 7 && v[6] == '_' {
+				b = v[7:]
+			}
+			b = strings.TrimPrefix(b, "urn:ietf:params:oauth:request_uri:")
+			rnd, _, _ := strings.Cut(b, ".")
+			if prev, dup := seen[rnd]; dup {
+				h.Violate(t, "C06/mint/repeat", "random part %q minted twice while %d goroutines minted concurrently (%s and %s)", rnd, len(kinds), prev, kinds[g])
+			}
+			seen[rnd] = kinds[g]
+		}
+	}
+	if total < per {
+		t.Fatalf("VERIF-INFRA: only %d values minted", total)
+	}
+	h.CaseN(total)
+	h.Case("C06/concurrent-minting", true, func() any {
+		return map[string]any{"layer": "minting", "goroutines": len(kinds), "kinds": kinds, "values": total}
+	})
+	h.MarkCompleted()
+}
+
 func FuzzC06HMACValidate(f *testing.F) {
 	c := hmacCfg{global: []byte("fuzz-global-secret-0123456789-0123456789"), rotated: [][]byte{[]byte("fuzz-rotated-secret-0123456789-012345678")}}
 	ctx := context.Background()
